@@ -144,6 +144,17 @@ claim("C19", "DESIGN.md 5 C19",
       "PARTIAL / not decided: the recording and static-file handlers (os.Root confinement is the operating system's), diskwriter.sanitise (strings.Replacer), the delete-form filename checks, that every entry point validates before use (only the functions named are under contract); "
       "the trusted clauses about path.Clean are NOT proved (the thorough tier also runs tools/cleancheck, a bounded exhaustive comparison of those clauses with the real path.Clean on all 97656 rooted strings up to length 9 over {a . / \\ 0xC3}: a supporting check of the assumption, labelled bounded, never counted).")
 
+claim("C20", "DESIGN.md 5 C20",
+      "NARROW: the recorder's boundary only. diskwriter.diskTrack.Write parses a private copy of the incoming packet of exactly its length (the caller's buffer is reused by the forwarding path, the sample builder retains packets); "
+      "gap recovery calls fetch for exactly the missing numbers lastSeqno+1 .. seqno-1 in increasing order and only for gaps below 256; fetch asks the publisher's cache for that number without scheduling a NACK, "
+      "parses exactly the bytes returned (it parsed the whole 1504-byte buffer: repaired) from a buffer of its own, and writes only a packet that parsed; the incoming packet is written after the recovered ones; no panic in Write/fetch; the maybeUint32 helpers are exact.",
+      "Assumed: pion rtp.Packet.Unmarshal, writeRTP and requestKeyframe (trusted: they keep the track's connection, publisher and lock). "
+      "NOT decided (the larger part of the statement): everything inside writeRTP/writeBuffered, pion samplebuilder and ebml-go - frame completeness, order, duplicates, 'no frame after the first keyframe is missing', monotone timestamps, the shared time origin, container well-formedness, flush on close. "
+      "These need contracts on third-party sample assembly and container code that is outside the repository.")
+
 PENDING = "not yet carried by the engine in this build (work in progress; see DESIGN.md section 9 for the order of work)"
-for pid in ["C07", "C14", "C20"]:
-    na(pid, PENDING)
+na("C07", "not decidable by per-call contracts here: the statement is an if-and-only-if over whole histories (every request change, publish, replace, close, kick in any interleaving) with asynchronous delivery through per-client action queues and a 200 ms push goroutine; it needs event-log ghosts over unbounded histories plus interference reasoning that this engine does not have. "
+   "Per-function pieces ARE under contract and discharged under C11/C12 (rtpconn.requestedTracks$1 returns the first / the last track of a kind, requestedTracks returns at most two of the publisher's tracks and nothing when nothing is requested; handleClientMessage's guards on membership), but they do not add up to the property and are not claimed for it.")
+na("C14", "not decidable by per-call contracts here: convergence of every member's view at quiescence, 'exactly once', and 'no event about one group reaches a member of another' are statements over all interleavings of joins, leaves, kicks and permission changes with asynchronous delivery. "
+   "Even the per-operation fan-out ('every other member is told') is out of reach: the engine models a range over a map as yielding an arbitrary present key per step, so it cannot prove that group.getClientsUnlocked returns ALL members. "
+   "AddClient/DelClient are under contract for C10/C13 (admission, locking, frames); their notification loops are verified for memory safety only.")
